@@ -89,12 +89,15 @@ def plan(ch, tier):
     hold = {"on": ch.flag("hold_attempt", 0.25), "secs": ch.pick("hold_secs", [1.5, 0.5, 3.0])}
     # mechanical plunger: a ball may already rest in the lane at boot (nothing queued; the player plunges it by hand)
     lane_ball = topo == "t4" and nb >= 2 and ch.flag("lane_ball_at_boot", 0.5)
+    # two feeds: more balls may be requested than the machine has (a legal use of playfield.add_ball: the requests
+    # stay queued until balls come home); a lane whose own feed is empty then waits, the other one must still be served
+    oversub = "trough_b" in TOPOLOGIES[topo] and ch.flag("oversubscribe", 0.5)
     if lane_ball and ch.flag("lane_plunge_before_game", 0.5):
         # attract mode: somebody plunges the resting ball before any game was started
         ops[0]["op"] = ch.pick("lane_first_op", ["plunge", "wait"])
         ops[0]["dt"] = ch.pick("lane_first_dt", [5.0, 0.5, 12.0])
     return {"knobs": knobs, "world": wk, "topo": topo, "nballs": nb, "ops": ops, "patches": patches, "react": react,
-            "hold": hold, "lane_ball": lane_ball}
+            "hold": hold, "lane_ball": lane_ball, "oversub": oversub}
 
 
 def execute(ctx, plan, prop):
@@ -146,9 +149,11 @@ def execute(ctx, plan, prop):
         if pf.balls < 0 and pf.balls != neg_seen[0] and not world.ambiguous_reentries:
             neg_seen[0] = pf.balls
             # a capture from the playfield while an eject towards it is still unconfirmed is its own (known) class
-            pending = pf.num_balls_requested > 0 or any(
-                d.state in ("ball_left", "failed_confirm", "ejecting") and d.config["eject_targets"][0] is pf for d in devices)
-            sig = "playfield_capture_before_eject_confirm" if (pending and pf.balls == -1) else "playfield"
+            # (one ball per unconfirmed eject: with two lanes feeding the playfield both may be unconfirmed at once)
+            unconfirmed = sum(1 for d in devices if d.state in ("ball_left", "failed_confirm", "ejecting")
+                              and d.config["eject_targets"][0] is pf)
+            pending = pf.num_balls_requested > 0 or unconfirmed > 0
+            sig = "playfield_capture_before_eject_confirm" if (pending and pf.balls >= -max(1, unconfirmed)) else "playfield"
             if world.reentry_at_timeout:
                 sig = "entrance_reentry_at_eject_timeout"
             viol("count_negative", sig, "playfield.balls=%d at %.3f (num_balls_requested=%d, device states %r)"
@@ -232,8 +237,12 @@ def execute(ctx, plan, prop):
     def can_add(n=1):
         """A further ball may be requested only while the machine has one to give: the workload keeps the game's
         balls_in_play in step with its requests, which is only meaningful without over-subscription."""
-        return (m.game is not None and m.game.balls_in_play + n <= world.total() and
-                pf.available_balls + n <= world.total())
+        if m.game is None:
+            return False
+        if plan.get("oversub"):
+            # at most two requests beyond what the machine holds
+            return pf.available_balls + n <= world.total() + 2
+        return m.game.balls_in_play + n <= world.total() and pf.available_balls + n <= world.total()
 
     # ---- workload -------------------------------------------------------------------------------------
     games = [0]
@@ -324,6 +333,22 @@ def execute(ctx, plan, prop):
         if e["outcome"] in ("fallback", "stuck", "late"):
             ctx.probe({"fallback": "fallback", "stuck": "stuck", "late": "late_arrival"}[e["outcome"]])
 
+    def upstream(dname):
+        out, todo = set(), [dname]
+        while todo:
+            cur = todo.pop()
+            for i in world.devs.values():
+                if i.target.name == cur and i.name not in out:
+                    out.add(i.name)
+                    todo.append(i.name)
+        return out
+
+    def starved(d):
+        """Over-subscribed machine: a device that waits for a ball which none of its sources physically has."""
+        if not plan.get("oversub") or d.state != "waiting_for_ball" or world.count(d.name):
+            return False
+        return not any(world.count(u) for u in upstream(d.name))
+
     # ---- faults stop; the physical world comes to rest ------------------------------------------------------
     in_workload[0] = False
     world.faults_enabled = False
@@ -338,7 +363,7 @@ def execute(ctx, plan, prop):
         for name in topo["manual"]:
             if world.count(name) and m.ball_devices[name].state in ("ejecting", "waiting_for_ball_left", "ball_left"):
                 world.plunge(name)
-        stable = world.at_rest() and all(d.state == "idle" or d.name in broken for d in devices)
+        stable = world.at_rest() and all(d.state == "idle" or d.name in broken or starved(d) for d in devices)
         quiet = quiet + 1.0 if stable else 0.0
         if quiet >= 8.0:
             break
@@ -372,25 +397,19 @@ def execute(ctx, plan, prop):
     for d in devices:
         if d.name in broken:
             continue
+        if starved(d):
+            ctx.probe("starved_lane_at_rest")
+            continue
         if d.available_balls != d.balls or not d.outgoing_balls_handler.is_idle:
             viol("device_not_idle", d.name + (" after_late_arrival" if d.name in world.late_targets else ""), "at rest %s: balls=%d available_balls=%d outgoing idle=%r"
                  % (d.name, d.balls, d.available_balls, d.outgoing_balls_handler.is_idle))
-    if not broken and pf.available_balls != pf.balls:
+    if not broken and pf.available_balls != pf.balls and not plan.get("oversub"):
         src_has = sum(world.count(d.name) for d in devices)
         if pf.available_balls > pf.balls and src_has > 0:
             viol("request_not_served", "playfield", "at rest playfield is still owed %d ball(s) (available_balls=%d, balls=%d) "
                  "while %d ball(s) sit in devices %r" % (pf.available_balls - pf.balls, pf.available_balls, pf.balls, src_has,
                                                          [(d.name, d.balls, d.state) for d in devices]))
     # a device with a queued ball request whose upstream devices physically hold a ball: the request could be served
-    def upstream(dname):
-        out, todo = set(), [dname]
-        while todo:
-            cur = todo.pop()
-            for i in world.devs.values():
-                if i.target.name == cur and i.name not in out:
-                    out.add(i.name)
-                    todo.append(i.name)
-        return out
     for d in devices:
         if d.name in broken or not d.requested_balls:
             continue
